@@ -365,3 +365,99 @@ def py_lints(ctx, py, mods, only=None):
     py_minmax_kind(ctx, py, mods, only=only)
     span_kind(ctx, None, py, None, py_mods=mods, py_only=only, tus=[])
     lib_py.py_width(ctx, py, mods, only=only)
+
+
+TS_WRITERS_OK = {
+    "tsk_treeseq_init": "constructor: allocates / copies / indexes the tables it will own",
+    "tsk_treeseq_free": "destructor",
+    "tsk_treeseq_load": "constructor (file)",
+    "tsk_treeseq_loadf": "constructor (stream)",
+}
+
+
+def lib_ts_readonly(ctx, P, rule="LIB-TS-READONLY", tus=("trees", "genotypes", "stats", "convert", "haplotype_matching")):
+    """Write effects on a live tree sequence's tables inside libtskit (the C `const` on tsk_treeseq_t does not reach through
+    the `tables` pointer)."""
+    from sa.expr import strip, walk, estr, callee, calls, is_assign
+    ctx.rule(rule, "outside its constructors and destructor no libtskit function writes through `<tree sequence>->tables`: no "
+                   "assignment, increment or memcpy/memset destination has an access path that passes through the `tables` member "
+                   "of a tsk_treeseq_t (directly, or through a non-const local pointer initialised from it), and `->tables` (or a "
+                   "table / column below it) is never handed to a parameter that is not const-qualified.  The `const` on "
+                   "`const tsk_treeseq_t *self` does not reach through the pointer, so the compiler does not enforce this")
+
+    def chain(n):
+        """(text of the access path without subscripts, root DeclRefExpr node)"""
+        n = strip(n)
+        parts = []
+        while n is not None:
+            if n.k == "ArraySubscriptExpr":
+                n = strip(n.kids[0])
+            elif n.k == "MemberExpr":
+                parts.append(("->" if n.arrow else ".") + (n.name or ""))
+                n = strip(n.kids[0])
+            elif n.k == "UnaryOperator" and n.op in ("*", "&"):
+                n = strip(n.kids[0])
+            elif n.k == "DeclRefExpr":
+                return (n.ref or "") + "".join(reversed(parts)), n
+            else:
+                return "".join(reversed(parts)), None
+        return "".join(reversed(parts)), None
+    n_sites = 0
+    for key in tus:
+        tu = P.tus[key]
+        for fn in tu.funcs.values():
+            if fn.body is None:
+                continue
+            # non-const local pointers that alias something below ->tables
+            tainted = {}
+            for x in walk(fn.body):
+                if x.k == "VarDecl" and x.kids and x.name and "*" in (x.ty or "") and not (x.ty or "").lstrip().startswith("const"):
+                    c, _ = chain(x.kids[-1])
+                    if re.search(r"->tables(->|\.|$)", c):
+                        tainted[x.name] = c
+
+            def through_tables(node):
+                c, root = chain(node)
+                if re.search(r"->tables(->|\.)", c):
+                    return c
+                if root is not None and root.ref in tainted and strip(node) is not None and strip(node).k != "DeclRefExpr":
+                    return "%s (= %s)" % (c, tainted[root.ref])
+                return None
+            bad = []
+            for x in walk(fn.body):
+                tgt = None
+                if is_assign(x) or x.k == "CompoundAssignOperator":
+                    tgt = x.kids[0]
+                elif x.k == "UnaryOperator" and x.op in ("++", "--"):
+                    tgt = x.kids[0]
+                if tgt is not None:
+                    t = through_tables(tgt)
+                    if t:
+                        bad.append((x, "writes `%s`" % t))
+                if x.k == "CallExpr":
+                    nm = callee(x)
+                    cal = P.func(nm) if nm else None
+                    for i, a in enumerate(x.kids[1:]):
+                        c, root = chain(a)
+                        hit = re.search(r"->tables(->|\.|$)", c) or (root is not None and root.ref in tainted)
+                        if not hit:
+                            continue
+                        if nm in ("tsk_memcpy", "memcpy", "tsk_memset", "memset", "tsk_memmove", "memmove"):
+                            if i == 0:
+                                bad.append((x, "%s destination `%s`" % (nm, c)))
+                            continue
+                        if cal is None or i >= len(cal.params):
+                            continue
+                        pty = cal.params[i].ty or ""
+                        if "*" in pty and "const" not in pty:
+                            bad.append((x, "passes `%s` to `%s` parameter %d of %s" % (c, pty, i, nm)))
+            if not bad and not re.search(r"tables", tu.src(fn.body)):
+                continue
+            n_sites += 1
+            if fn.name in TS_WRITERS_OK:
+                ctx.ob(rule, fn.name, True, tu.loc(fn.node), "sanctioned: " + TS_WRITERS_OK[fn.name])
+            else:
+                ctx.ob(rule, fn.name, not bad, tu.loc(bad[0][0]) if bad else tu.loc(fn.node),
+                       "reads the tables only" if not bad else "%s %s" % (fn.name, bad[0][1]))
+    ctx.floor(rule, 50)
+    return n_sites
